@@ -227,6 +227,25 @@ def check_finishers(ctx, cfg):
                         lp = full_traversal_loop(ctx, cfg, a, b, owners, cl, loc, c.bb)
                         if lp is not None:
                             evidence = "dominated by the None exit of a loop over the owner's whole storage whose every step advances the owner's position exactly once (no break)"
+            if evidence is None and is_forget and c.targs[0]["def"].split("::")[-1] == "GenericArrayIter" and (argv in (("V", "arg", 1), ("V", "cell", (("local", 1), ()))) or argv == a.read_cell(State(c.mem, c.facts), ("local", 1), (), a.local_ty(1))):
+                # a by-value method of the iterator that forgets `self`: on every path through this forget the range claimed at entry is exactly
+                # partitioned into ranges destroyed in place and slots moved out to the caller (nothing left to release, nothing released twice)
+                itx = c06.It(db)
+                at = ctx.analysis_inl(cfg, b["key"], itx.inv_facts(True), split=True, tag="inv1")
+                if not c06.has_cycle(at):
+                    okp, n_p = True, 0
+                    for r in at.returns:
+                        for pth in (c06.acyclic_paths(at, r["bb"]) or [None]):
+                            if pth is None:
+                                okp = False
+                                continue
+                            if not any(x.fn == "core::mem::forget" and x.bb in pth for x in at.calls):
+                                continue
+                            n_p += 1
+                            st_, det_ = c06.ownership_path(at, itx, "", pth, r, byval=True, forgotten=True)
+                            okp = okp and st_ == PROVED
+                    if okp and n_p:
+                        evidence = "on each of the %d path(s) through this forget the iterator's claimed range is exactly partitioned into destroyed ranges and moved-out slots" % n_p
             if evidence is None and loc is not None:
                 # extend(&mut owner, X.into_iter()) with len(X) == N proven
                 for e in a.calls:
